@@ -1,6 +1,7 @@
 import ComposeVerif.Ops.Common
 import ComposeVerif.Model.Marshal
 import ComposeVerif.Model.Encode
+import ComposeVerif.Model.Decode
 import ComposeVerif.Gen.Types
 /-! line-protocol ops for C09: `c09.marshal` / `c09.decode` (custom marshallers and decoders of package types) -/
 open Lean
@@ -82,6 +83,12 @@ def structOp : Handler := fun args =>
   | .ok v => outJson (CV.Encode.render genEnv fmt (getStr args "type") v)
   | .error e => Json.mkObj [("bad", e)]
 
-def handlers : List (String × Handler) := [("c09.marshal", marshalOp), ("c09.decode", decodeOp), ("c09.struct", structOp)]
+/-- generic decoding of a tree into a model type over the regenerated descriptors -/
+def loadOp : Handler := fun args =>
+  match Val.ofJson (getObj args "v") with
+  | .ok v => outJson (CV.Decode.load genEnv (getStr args "type") v)
+  | .error e => Json.mkObj [("bad", e)]
+
+def handlers : List (String × Handler) := [("c09.marshal", marshalOp), ("c09.decode", decodeOp), ("c09.struct", structOp), ("c09.load", loadOp)]
 
 end CV.Ops.C09
